@@ -393,13 +393,28 @@ func runCase(mode string, shape []field, prefix string, fm map[string]string) li
 	}
 	s.mu.Lock()
 	seen := map[string]bool{}
+	asked := map[string]int{}
 	for _, r := range s.reqs {
+		asked[r]++
 		if !seen[r] {
 			seen[r] = true
 			ln.Requests = append(ln.Requests, r)
 		}
 	}
 	s.mu.Unlock()
+	if mode != "newstore" {
+		// C16: a failed lookup is reported, not repeated -- Apply asks for a name at most once per field that names it
+		// (a lookup that succeeded installs the secret, the fields after it find it in the store)
+		want := map[string]int{}
+		for _, n := range ln.Names {
+			want[n]++
+		}
+		for n, k := range asked {
+			if k > want[n] {
+				notes = append(notes, fmt.Sprintf("Apply asked the service %d times for %q, which %d field(s) name: a lookup that had failed was repeated without anybody asking for it", k, n, want[n]))
+			}
+		}
+	}
 	ln.Err = tf(applyErr != nil)
 	ln.Outcome = observe(v, shape, prefix, s, 1, &notes)
 	if st == nil {
@@ -447,6 +462,66 @@ func runCase(mode string, shape []field, prefix string, fm map[string]string) li
 		}
 	}
 	return ln
+}
+
+// noLookup: Apply on a store that does not allow lookups (C16): every field naming a secret the store does not have is
+// an error, nothing is asked of the service, the fields of the secrets it has are filled.
+func noLookup(shape []field, prefix string) []string {
+	var notes []string
+	s := &svc{form: map[string]string{"base": "num", join(prefix, "n1"): "num", join(prefix, "n2"): "obj"}, ver: map[string]int{"base": 1, join(prefix, "n1"): 1, join(prefix, "n2"): 1}}
+	defer func() {
+		if r := recover(); r != nil {
+			notes = append(notes, fmt.Sprintf("with lookups disabled Apply panics: %v", r))
+		}
+	}()
+	// the store knows n1 (declared), not n2
+	st, err := setec.NewStore(context.Background(), setec.StoreConfig{Client: s, Secrets: []string{"base", join(prefix, "n1")}, PollInterval: -1, Logf: func(string, ...any) {}})
+	if err != nil {
+		panic(err)
+	}
+	defer st.Close()
+	v := structFor(shape)
+	fs, err := setec.ParseFields(v.Interface(), prefix)
+	if err != nil {
+		return nil
+	}
+	s.mu.Lock()
+	s.reqs = nil
+	s.mu.Unlock()
+	unknown := false
+	for _, n := range fs.Secrets() {
+		unknown = unknown || n == join(prefix, "n2")
+	}
+	aerr := fs.Apply(context.Background(), st)
+	s.mu.Lock()
+	reqs := append([]string(nil), s.reqs...)
+	s.mu.Unlock()
+	if len(reqs) > 0 {
+		notes = append(notes, fmt.Sprintf("with lookups disabled Apply asked the service for %v", reqs))
+	}
+	if unknown && aerr == nil {
+		notes = append(notes, "with lookups disabled Apply reports no error although a field names a secret the store does not have")
+	}
+	if !unknown && aerr != nil && onlyDecodable(shape) {
+		notes = append(notes, fmt.Sprintf("with lookups disabled Apply fails although the store has every secret the fields name: %v", aerr))
+	}
+	if st.Secret(join(prefix, "n1")) == nil {
+		notes = append(notes, "with lookups disabled the declared secret has no handle after Apply")
+	}
+	return notes
+}
+
+// onlyDecodable: every field naming n1 (a JSON number) can take that value
+func onlyDecodable(shape []field) bool {
+	for _, f := range shape {
+		switch f.Kind {
+		case "jsonstruct", "binval", "binptr":
+			if f.Kind == "jsonstruct" {
+				return false
+			}
+		}
+	}
+	return true
 }
 
 func shapes(maxLen int) [][]field {
@@ -550,6 +625,9 @@ func TestFields(t *testing.T) {
 		prefill = i%2 == 1
 		emit(runCase(mode, sh, p, fm))
 		prefill = false
+		for _, nt := range noLookup(sh, p) {
+			res.Violate("fields-note "+first(nt, 60), fmt.Sprintf("shape %v prefix %q: %s", sh, p, nt), map[string]any{"shape": sh, "prefix": p})
+		}
 	}
 	w.Close()
 	// arguments that are not pointers to structs are rejected up front
